@@ -23,9 +23,12 @@
        "counted + deferred" here: a dropped structure stays counted beneath its deferred root until
        allocation recycles it, which is why the in-use count, not the reachable count, is the
        measure that is exact.
-   NOT YET PROVED: the lifting from operation traces to programs (as C09); the executable check
-   (frontier <= peak + 2 at every run, peak sampled at statement boundaries only; equal frontier
-   after 8 and 32 iterations of the allocation-loop families) covers that link. *)
+   ROUND 2: the lifting from operation traces to programs is proved (Props/C09.v C09_program_heap_safe), so
+   the statements hold for every run of a linearity-checked program on the heap-instrumented linear machine
+   (C10_program_*, at the end of this file, with a concrete loop as example).  Not proved: that the real
+   code of a statement performs exactly the operations the instrumented machine lists (checked in lockstep
+   by heaplock-x86, see C09); the executable check (frontier <= peak + 2 at every run; equal frontier after 8
+   and 32 iterations of the allocation-loop families) remains. *)
 From Coq Require Import List ZArith Permutation.
 From SCC Require Import Model.Heap Proof.HeapMore Proof.HeapTrace.
 Import ListNotations.
